@@ -586,6 +586,13 @@ impl Prop for C16 {
                     ("fold", 3) => cmd_args.extend(["--fill".into(), "zero".into()]),
                     _ => {}
                 }
+                let fname = match (is_text(file), (img.len() + damages.len()) % 3) {
+                    (false, 0) => "in.npy",
+                    (true, 0) => "in.sfs",
+                    (false, 1) => "in.sfs",
+                    (true, 1) => "in.npy",
+                    _ => "in.dat",
+                };
                 let run_on = |ctx: &mut Ctx, bytes: &[u8]| {
                     let mut args = cmd_args.clone();
                     let child = if *stdin {
@@ -597,13 +604,13 @@ impl Prop for C16 {
                             files: vec![],
                         }
                     } else {
-                        args.push("@DIR@/in.sfs".into());
+                        args.push(format!("@DIR@/{fname}"));
                         Child {
                             args,
                             env: vec![],
                             stdin: Stdin::Null,
                             plan: None,
-                            files: vec![("in.sfs".into(), gen::hex(bytes))],
+                            files: vec![(fname.into(), gen::hex(bytes))],
                         }
                     };
                     let mut r = l2::run_child(ctx, &child);
